@@ -161,7 +161,7 @@ pub fn run(ctx: &Ctx) {
         for backend in [Backend::Default, Backend::RingFirst] {
             for pat in pats {
                 k += 1;
-                if ctx.tier.pick(k % 3 != 0, false) {
+                if ctx.tier.pick(k % 2 != 0, false) {
                     continue;
                 }
                 let items: Vec<Item> = NONCES.iter().enumerate().map(|(j, n)| Item { r_to_i: (j + k) % 3 == 0, nonce: *n, plen: [0usize, 1, 16, 33, 1000][(j + k) % 5] }).collect();
@@ -173,7 +173,7 @@ pub fn run(ctx: &Ctx) {
     ctx.run_list("boundary_nonces", &cases, false, oracle);
     ctx.run_prop(
         "random_scripts",
-        ctx.tier.pick(5000, 50_000),
+        ctx.tier.pick(20_000, 200_000),
         || {
             let nonce = prop_oneof![2 => (0usize..NONCES.len()).prop_map(|i| NONCES[i]), 2 => any::<u64>().prop_map(|v| if v == u64::MAX { 7 } else { v }), 1 => 0u64..1000];
             let item = (any::<bool>(), nonce, prop_oneof![4 => 0usize..80, 1 => Just(65519usize), 1 => 0usize..5000]).prop_map(|(r_to_i, nonce, plen)| Item { r_to_i, nonce, plen });
